@@ -12,6 +12,9 @@ RULE = (
     "that XML by lib/odfread.expand_table (lxml only); every 5th step also after Document.save(BytesIO) + reload. "
     "Evaluations = machine steps. Non-trivial history = a cache-filling read immediately preceded a mutation; distinct by "
     "(initial spec, op list)."
+    ' Composite rules line up the rare sequences: strip_cycle (cache-filling read, rstrip/optimize_width, regrow, edit), li'
+    've_row (Row-level reads incl. just past the row end, rstrip and in-range edits on get_row(clone=False), then a table-l'
+    'evel write at the row end and a read by coordinates), kept Row objects re-used.'
 )
 ASSUMPTIONS = [
     "lxml parses what odfdo serialises; lib/odfread.expand_table is a correct reader of table:table (columns/rows under "
